@@ -342,6 +342,9 @@ def write_evidence_file(prop, tier, seed, mod, rules, unlisted, listed, gen_info
             'facts': fx_stats,
             'generation': gen_infos,
             'known_findings_reported': sorted({v['key'] for _, v, _ in listed}),
+            'virtual_inlining': [{'config': c.config, 'map_err_lowered': (getattr(c, 'inline_info', None) or {}).get('map_err_lowered'),
+                                  'new_helpers_inlined': [h for h, n, d in (getattr(c, 'inline_info', None) or {}).get('helpers', [])],
+                                  'moved_functions_recognised': [b for b, n in (getattr(c, 'inline_info', None) or {}).get('moved', [])]} for c in ctxs],
             'exhaustive': False,
             **({'selftest': selftest_results} if selftest_results is not None else {}),
         },
